@@ -53,6 +53,8 @@ impl Serialize for Typed<'_> {
             // impl Serialize for Option<T>
             (DynType::Opt(_), Dyn::None) => s.serialize_none(),
             (DynType::Opt(t), Dyn::Some(x)) => s.serialize_some(&Typed(t, x)),
+            // impl Serialize for Spanned<T>: self.value.serialize(serializer)
+            (DynType::Spanned(t), Dyn::Spanned(_, _, x)) => Typed(t, x).serialize(s),
             // impl Serialize for Vec<T>: serializer.collect_seq(self)
             (DynType::Seq(t), Dyn::Seq(xs)) => s.collect_seq(xs.iter().map(|x| Typed(t, x))),
             // impl Serialize for (T0, T1, ..)
